@@ -17,7 +17,7 @@ THEOREMS = ["C20_roundtrip", "C20_reads_deliver_content", "C20_reads_succeed", "
             "C20_old_readOpen_refuted", "C20_fixed_readOpen_examples",
             "C20_dec_contract_refuted", "C20_dec_contract_open_weaker", "C20_dec_contract_open_holds",
             "C20_roundtrip_open", "C20_roundtrip_dec_discharged", "C20_read_session_framed",
-            "C20_comp_contract_open_holds", "C20_comp_writes_bytes_holds", "C20_roundtrip_discharged"]
+            "C20_comp_contract_open_holds", "C20_comp_writes_bytes_holds", "C20_roundtrip_discharged", "C20_roundtrip_linked_discharged"]
 CORRESPONDENCE = ["File.read_session (specification-derived decompressor) == LZ4F_readOpen/LZ4F_read return values and bytes",
                   "file written by LZ4F_writeOpen/LZ4F_write/LZ4F_writeClose == exactly one frame of the content by Spec.FrameSpec.frame_decode"]
 ORACLES = ["block", "lzfile"]
